@@ -158,6 +158,10 @@ void k8_crypt(void) {
     struct in_k8_crypt IN = VF_IN(k8_crypt);
     seed_assume_inv(&IN.s);
     IN.pw[PWMAX] = '\0';
+#ifdef PW_PREFIX
+    /* long passwords: a concrete ASCII prefix, the remaining bytes symbolic */
+    for (int i = 0; i < PW_PREFIX; ++i) IN.pw[i] = 'p';
+#endif
     IN.dep.norm_out[DEP_STR_MAX] = '\0';
     /* KDF is deterministic: same inputs, same output */
     for (int i = 0; i < 32; ++i) VASSUME(IN.dep.kdf_out[1][i] == IN.dep.kdf_out[0][i]);
@@ -175,6 +179,9 @@ void k8_crypt(void) {
     const char* expect = ascii ? IN.pw : IN.dep.norm_out;
     size_t elen = 0; while (expect[elen] != '\0') elen++;
 
+#ifdef K8_LIGHT
+    IN.history = false;        /* long-password cell: one application only */
+#endif
     if (IN.history) {
         seed_assume_inv(&IN.h_s);
         IN.h_pw[3] = '\0';
@@ -212,9 +219,11 @@ void k8_crypt(void) {
     VASSERT(wipes_of_size(32) >= 1, "K8 mask wiped");
     VASSERT(wipes_of_size(sizeof(polyseed_str)) >= 1, "K8 normalised password wiped");
     C16_CHECK(polyseed_crypt, "C16 every temporary aggregate of polyseed_crypt is wiped as a whole object");
+#ifndef K8_LIGHT
     /* involution */
     polyseed_crypt(&d, IN.pw);
     VASSERT(seed_eq(&d, &d0), "K8 applying the same password twice restores the seed bit for bit");
+#endif
     FRAME_END(&fr);
     VEND();
 }
